@@ -74,10 +74,37 @@ def run_shard(desc):
     raise HarnessError(k)
 
 
+RAW_TEXTS = ['(a)', '(a', '(', 'a)', ')', '(a|b)', '+a', '@a', '~a', '{a', 'a-b', 'a!b', '[a', 'a]', '()', '(!a)', '(-a)', 'x(a)', '\\(a\\)', '(.a)', '(a)*',
+             '?(a', '*(', '!(a']
+
+
 def _strategies():
+    """Pattern pieces: rendered ASTs, their loosely escaped spelling, and raw texts whose first character is a bare
+    parenthesis or another character that is special only in combination."""
     from hypothesis import strategies as st
     seq = A.st_seq(max_budget=4, max_depth=2, max_alts=2, alphabet=ALPHABET, posix=False, ranges=False)
     return st, seq
+
+
+def st_text(ext_known=None):
+    from hypothesis import strategies as st
+    _st, seq = _strategies()
+    return st.one_of(seq.map(lambda s: ('ast', s)), seq.map(lambda s: ('ast', s)), seq.map(lambda s: ('loose', s)),
+                     st.sampled_from(RAW_TEXTS).map(lambda t: ('raw', t)))
+
+
+def text_of(item, ext):
+    kind, v = item
+    if kind == 'raw':
+        return v
+    if not v:
+        return ''
+    if not ext:
+        return A.render_plain(A.flatten_ext(v))
+    if kind == 'loose':
+        t = A.render_loose(v)
+        return t if '|' not in t.replace('\\|', '') or True else A.render(v)
+    return A.render(v)
 
 
 def base_flags(mode, ext, dot, extra_bits):
@@ -103,26 +130,29 @@ def run_lists(desc):
 
     @seed(desc['seed'])
     @util.hyp_settings(desc['n'], shrink=False)
-    @given(st.lists(seq, min_size=0, max_size=4), st.lists(seq, min_size=0, max_size=3), st.sampled_from(['fn', 'gl']),
+    @given(st.lists(st_text(), min_size=0, max_size=4), st.lists(st_text(), min_size=0, max_size=3), st.sampled_from(['fn', 'gl']),
            st.booleans(), st.booleans(), st.integers(0, 2), st.integers(0, 2), st.booleans(), st.booleans(), st.randoms(use_true_random=False))
-    def test(incs, excs, mode, ext, dot, form, entry, negateall, nodir, rnd):
-        incs = [s for s in incs if s]
-        excs = [s for s in excs if s]
-        if not incs and not excs:
+    def test(inc_items, exc_items, mode, ext, dot, form, entry, negateall, nodir, rnd):
+        pi = [t for t in (text_of(it, ext) for it in inc_items) if t]
+        pe = [t for t in (text_of(it, ext) for it in exc_items) if t]
+        incs = [it[1] for it in inc_items if it[0] != 'raw' and it[1]]
+        excs = [it[1] for it in exc_items if it[0] != 'raw' and it[1]]
+        if not pi and not pe:
             return
-        render = (lambda s: A.render(s)) if ext else (lambda s: A.render_plain(A.flatten_ext(s)))
-        pi = [render(s) for s in incs]
-        pe = [render(s) for s in excs]
+        out.stats['raw_or_loose_pieces'] += sum(1 for it in inc_items + exc_items if it[0] != 'ast')
         if form in (1, 2):
             # an inclusion pattern that begins with the exclusion marker must be written escaped to stay an inclusion
             # (`!(` under EXTMATCH is exempt and is produced unescaped by the renderer)
             marker = '!' if form == 1 else '-'
             pi = ['\\' + p if p.startswith(marker) and not (marker == '!' and ext and p.startswith('!(')) else p for p in pi]
+            if form == 1 and ext:
+                # `!` + `(...` would spell an extended group, never an exclusion: such an exclusion must escape its parenthesis
+                pe = ['\\' + e if e.startswith('(') else e for e in pe]
         mod = F if mode == 'fn' else G
         dotflag = mod.DOTMATCH
         nodir = nodir and mode == 'gl'
         fl = base_flags(mode, ext, dot, [])
-        names = names_for(incs + excs, mode)
+        names = names_for(incs + excs, mode) + ['(a)', '(a', 'a)', '(', ')', '+a', '(a|b)', 'x(a)', '(.a)', '(a)a']
         match, _ = match_fn(mode)
         case = {'mode': mode, 'include': pi, 'exclude': pe, 'ext': ext, 'dot': dot, 'form': form, 'entry': entry,
                 'negateall': negateall, 'nodir': nodir, 'kind': 'lists'}
@@ -357,6 +387,9 @@ FIXED = [
     ('fn', ['*', '\\!a'], ['NEGATE'], '!a', True),
     ('fn', ['*', '-a'], ['NEGATE', 'MINUSNEGATE'], 'a', False),
     ('fn', ['*', '!a'], ['NEGATE', 'MINUSNEGATE'], 'a', True),     # `!` is not the exclusion marker under MINUSNEGATE
+    ('fn', ['*', '-(a)'], ['NEGATE', 'MINUSNEGATE', 'EXTMATCH'], '(a)', False),   # only `!(` is exempt, `-(` is an exclusion
+    ('fn', ['*', '-(a)'], ['NEGATE', 'MINUSNEGATE'], '(a)', False),
+    ('fn', ['*', '!(a)'], ['NEGATE'], '(a)', False),                # without EXTMATCH `!(a)` is the exclusion of `(a)`
     ('fn', ['!a'], ['NEGATE'], 'b', False),                         # exclusions alone match nothing
     ('fn', ['!a'], ['NEGATE', 'NEGATEALL'], 'b', True),
     ('fn', ['!a'], ['NEGATE', 'NEGATEALL'], '.b', False),
